@@ -258,7 +258,8 @@ package compiler
 //@ func (*ReplaceReference).processRef
 //@   property C15 C05
 //@   requires pass != nil && def.Kind == ast.KindRef
-//@   modifies nothing
+//@   modifies spare-capacity
+//@   ensures  kept: result.0.Nullable == def.Nullable && result.0.Default == def.Default && result.0.Kind == def.Kind
 //@   ensures  noerr: result.1 == nil
 //@   ensures  untouched: !refMatch(pass.From, old(def.Ref.ReferredPkg), old(def.Ref.ReferredType)) ==> result.0 == def
 //@   ensures  replaced: refMatch(pass.From, old(def.Ref.ReferredPkg), old(def.Ref.ReferredType)) ==> result.0.Kind == ast.KindRef && result.0.Ref != nil && fresh(result.0.Ref) && result.0.Ref.ReferredPkg == pass.To.Package && result.0.Ref.ReferredType == pass.To.Object
